@@ -31,6 +31,7 @@ std::map<std::string, std::string> g_opts;
 static std::vector<uint32_t> g_current_tape;
 static std::string g_replay_out;
 static std::string g_prop;
+static Report* g_rep = nullptr;
 
 static std::string json_escape(const std::string& s)
 {
@@ -80,7 +81,7 @@ static void crash_dump()
     if (once) return;
     once = true;
     write_replay(g_replay_out, g_current_tape, "crash", "process died (sanitizer report or signal) while running this tape; see stderr",
-                 "");
+                 g_rep ? g_rep->decoded : "");
 }
 static void on_signal(int sig)
 {
@@ -214,6 +215,7 @@ int main(int argc, char** argv)
     signal(SIGILL, on_signal);
 
     Report rep;
+    g_rep = &rep;
     auto t0 = std::chrono::steady_clock::now();
 
     if (!replay.empty())
